@@ -77,6 +77,7 @@ def check(run: Run, prog: Program, model: Model, tier: str) -> None:
         "validator compares with it. That the chosen window is the right one on concrete values is not decided."
         " Two members deep, the member pinned at position j derives from value[j] (no equality-keyed memo); an exact element list generates one member per element under every length prop-set; the conversion used for free-form positions is not memoised by equality.")
     run.explanation += " GIVEN-KEYS (inside DICT-TABLE): a key of the value that the table does not declare is refused - a condition over all keys of the value is tested on the path, or the pre-validation of that table has an extra-key row. NATIVE-CONTRACT: C14's ARM/FINAL obligations for from_native are re-derived, because free positions rely on them."
+    run.explanation += ' CONTAINER-VALIDATED: every list / dict returned by Substitutor.visit_list / visit_dict was handed to the pre-validation on the same path (a flag in kwargs that skips it is a violation).'
     run.rule_text = "obligations per (visit method, prop-set/shape) and clause; non-trivial = result tables computed on interpreter paths"
     from ..entry import entry_transparent
     entry_transparent(run, prog, model, "validate", "VALIDATE-ENTRY")
@@ -411,6 +412,30 @@ def _list_cover(run: Run, prog: Program, model: Model, tier: str) -> None:
     run.floor("LIST-GEN", 8)
     # free-form positions are pinned through from_native: the conversion must not be memoised by equality, or the
     # member pinned for 1.0 is the one built earlier for True (necessary for "the result accepts v")
+    # CONTAINER-VALIDATED: "if the value conforms then the result accepts it" is argued from the pre-validation of every
+    # container the substitutor descends into: a list / dict result returned on a path that did not validate the value
+    # (a flag in **kwargs that switches the check off for nested containers, say) pins whatever was given
+    for hook_c in ("visit_list", "visit_dict"):
+        f_c = model.visitors["Substitutor"].lookup(hook_c)
+        st_c = model.by_hook[hook_c]
+        bad_c: Dict[str, Set[str]] = {}
+        n_c = 0
+        for cfg_c in configs_for(st_c, tier):
+            for p_c in run_visit(prog, model, "Substitutor", hook_c, cfg_c, substitutor_ctx, unroll=1):
+                if p_c.outcome != "return" or not isinstance(p_c.value, SchemaV):
+                    continue
+                n_c += 1
+                if validated(p_c) is not True:
+                    cond_c = [("" if b else "not ") + k for k, _, b in p_c.facts][-1:]
+                    bad_c.setdefault(cfg_c.label, set()).add(cond_c[0][:70] if cond_c else "unconditionally")
+        c_c = f"Substitutor.{hook_c}: every returned container was validated on its path"
+        if bad_c:
+            lab = sorted(bad_c)[0]
+            run.violated("CONTAINER-VALIDATED", c_c, f_c.loc, f"under {lab} a schema is returned on a path without a clean validation "
+                         f"(when {sorted(bad_c[lab])[0]})",
+                         witness="a length-constrained list inside a `[..., e, ...]` window nested in a dict is pinned to a value it rejects")
+        elif n_c:
+            run.holds("CONTAINER-VALIDATED", c_c, f_c.loc, f"{n_c} return paths", nontrivial=True)
     from .c14 import _memo, native_contract
     native_contract(run, prog, model, tier, "at a position the schema leaves open the result then rejects the very value that was "
                     "substituted, although the original accepts it")
@@ -463,4 +488,15 @@ MUTANTS += [
     {"name": "members after the window inserted at a fixed index (reversed)", "rule": "LIST-COVER",
      "edits": [(SU, "        for i in range(start + len(substituted), len(value)):\n            substituted.insert(i, self._from_native(value[i]))",
                 "        end = start + len(substituted)\n        for i in range(end, len(value)):\n            substituted.insert(end, self._from_native(value[i]))")]},
+]
+
+# round 7: the seeded changes that were missed on first contact, replayed against the current tree
+MUTANTS += [
+    {"name": 'seeded C04-M', "rule": 'CONTAINER-VALIDATED',
+     "edits": [('d42/substitution/_substitutor.py', '        except ValueError:\n            raise SubstitutionError(f"Can\'t convert {value!r} to schema")\n\n    def visit(self, schema: GenericSchema, *, value: Any = Nil, **kwargs: Any) -> GenericSchema:\n        if substitute_method := getattr(schema, "__d42_substitute__", None):\n            return cast(GenericSchema, substitute_method(self, value=value, **kwargs))\n', '        except ValueError:\n            raise SubstitutionError(f"Can\'t convert {value!r} to schema")\n\n    def _validate_container(self, schema: GenericSchema, value: Any,\n                            kwargs: Dict[str, Any]) -> None:\n        # a container validates its whole value, nested containers included, before it descends:\n        # a nested container reached through it has nothing left to check\n        if kwargs.get("validated", False):\n            return\n        result = schema.__accept__(self._validator, value=value)\n        if result.has_errors():\n            raise make_substitution_error(result, self._formatter)\n\n    def visit(self, schema: GenericSchema, *, value: Any = Nil, **kwargs: Any) -> GenericSchema:\n        if substitute_method := getattr(schema, "__d42_substitute__", None):\n            return cast(GenericSchema, substitute_method(self, value=value, **kwargs))\n'),
+               ('d42/substitution/_substitutor.py', '        return substituted\n\n    def visit_list(self, schema: ListSchema, *, value: Any = Nil, **kwargs: Any) -> ListSchema:\n        result = schema.__accept__(self._validator, value=value)\n        if result.has_errors():\n            raise make_substitution_error(result, self._formatter)\n\n        if len(value) > 0 and all(is_ellipsis(x) for x in value):\n            raise SubstitutionError("Can\'t substitute all ...")\n', '        return substituted\n\n    def visit_list(self, schema: ListSchema, *, value: Any = Nil, **kwargs: Any) -> ListSchema:\n        self._validate_container(schema, value, kwargs)\n        nested = {**kwargs, "validated": True}\n\n        if len(value) > 0 and all(is_ellipsis(x) for x in value):\n            raise SubstitutionError("Can\'t substitute all ...")\n'),
+               ('d42/substitution/_substitutor.py', '                if is_ellipsis(val):\n                    element = val\n                else:\n                    element = schema.props.type.__accept__(self, value=val, **kwargs)\n                elements.append(element)\n            return schema.__class__(schema.props.update(elements=elements, type=Nil))\n\n', '                if is_ellipsis(val):\n                    element = val\n                else:\n                    element = schema.props.type.__accept__(self, value=val, **nested)\n                elements.append(element)\n            return schema.__class__(schema.props.update(elements=elements, type=Nil))\n\n'),
+               ('d42/substitution/_substitutor.py', '\n        # head\n        if (len(elements) >= 2) and is_ellipsis(elements[-1]):\n            substituted = self._substitute_elements(value, elements[:-1], **kwargs)\n            return schema.__class__(schema.props.update(elements=substituted))\n\n        # tail\n        if (len(elements) >= 1) and is_ellipsis(elements[0]):\n            elements = elements[1:]\n            index = max(0, len(value) - len(elements))\n            substituted = self._substitute_elements(value, elements, index, **kwargs)\n            return schema.__class__(schema.props.update(elements=substituted))\n\n        substituted = self._substitute_elements(value, elements, **kwargs)\n        return schema.__class__(schema.props.update(elements=substituted))\n\n    def visit_dict(self, schema: DictSchema, *, value: Any = Nil, **kwargs: Any) -> DictSchema:\n        result = schema.__accept__(self._validator, value=value)\n        if result.has_errors():\n            raise make_substitution_error(result, self._formatter)\n\n        keys: Dict[Any, Any] = {}\n        if schema.props.keys is Nil or (len(schema.props.keys) == 1 and ... in schema.props.keys):\n', '\n        # head\n        if (len(elements) >= 2) and is_ellipsis(elements[-1]):\n            substituted = self._substitute_elements(value, elements[:-1], **nested)\n            return schema.__class__(schema.props.update(elements=substituted))\n\n        # tail\n        if (len(elements) >= 1) and is_ellipsis(elements[0]):\n            elements = elements[1:]\n            index = max(0, len(value) - len(elements))\n            substituted = self._substitute_elements(value, elements, index, **nested)\n            return schema.__class__(schema.props.update(elements=substituted))\n\n        substituted = self._substitute_elements(value, elements, **nested)\n        return schema.__class__(schema.props.update(elements=substituted))\n\n    def visit_dict(self, schema: DictSchema, *, value: Any = Nil, **kwargs: Any) -> DictSchema:\n        self._validate_container(schema, value, kwargs)\n        nested = {**kwargs, "validated": True}\n\n        keys: Dict[Any, Any] = {}\n        if schema.props.keys is Nil or (len(schema.props.keys) == 1 and ... in schema.props.keys):\n'),
+               ('d42/substitution/_substitutor.py', '                    if is_ellipsis(value[key]):\n                        keys[key] = (val, False)\n                    else:\n                        keys[key] = (val.__accept__(self, value=value[key], **kwargs), False)\n                else:\n                    keys[key] = (val, is_optional)\n            for key, val in value.items():\n', '                    if is_ellipsis(value[key]):\n                        keys[key] = (val, False)\n                    else:\n                        keys[key] = (val.__accept__(self, value=value[key], **nested), False)\n                else:\n                    keys[key] = (val, is_optional)\n            for key, val in value.items():\n'),
+               ('d42/substitution/_substitutor.py', '        if result.has_errors():\n            raise make_substitution_error(result, self._formatter)\n\n        types = []\n        if schema.props.types is Nil:\n            types.append(self._from_native(value))\n', '        if result.has_errors():\n            raise make_substitution_error(result, self._formatter)\n\n        # which alternatives fit is found out by substituting into each of them\n        kwargs.pop("validated", None)\n        types = []\n        if schema.props.types is Nil:\n            types.append(self._from_native(value))\n')]},
 ]
